@@ -231,10 +231,220 @@ def simple(pid, level, sub, configs_quick, configs_thorough=None):
     return run
 
 
+
+# ------------------------------------------------------------------------------------------------
+# C03 / C20: the probe program built in every configuration of the lattice
+STD = ["chacha_std", "blake_std", "jh_std", "ppv_std"]
+PROBE_CONFIGS = {
+    # name: (vprobe features, extra rustflags, forced backends to run)
+    "probe-std": (STD, "", [0, 1, 2, 3, 4, 5]),
+    "probe-ns-sse2": ([], "", [0]),
+    "probe-ns-ssse3": ([], "-Ctarget-feature=+ssse3", [0]),
+    "probe-ns-sse41": ([], "-Ctarget-feature=+ssse3,+sse4.1", [0]),
+    "probe-ns-avx": ([], "-Ctarget-feature=+ssse3,+sse4.1,+avx", [0]),
+    "probe-ns-avx2": ([], "-Ctarget-feature=+ssse3,+sse4.1,+avx,+avx2", [0]),
+    "probe-nosimd-std": (STD + ["ppv_no_simd"], "", [0]),
+    "probe-nosimd-nostd": (["ppv_no_simd"], "", [0]),
+}
+BACKEND_NAMES = ["cpuid", "sse2", "ssse3", "sse41", "avx", "avx2"]
+
+
+def build_probe(name, features, rustflags, tdir=None):
+    """returns (binary path or None, error text)"""
+    tdir = tdir or os.path.join(BUILD, name)
+    cmd = ["cargo", "build", "--offline", "-q", "--release", "-p", "vprobe", "--target-dir", tdir]
+    if features:
+        cmd += ["--features", ",".join(features)]
+    p = subprocess.run(cmd, cwd=HARNESS, env=cargo_env(rustflags), stdout=subprocess.PIPE, stderr=subprocess.STDOUT, text=True)
+    if p.returncode != 0:
+        return None, p.stdout[-3000:]
+    return os.path.join(tdir, "release", "vprobe"), ""
+
+
+def run_probe(binp, force=0, long=False):
+    args = [binp, "--force", str(force)] + (["--long"] if long else [])
+    p = subprocess.run(args, stdout=subprocess.PIPE, stderr=subprocess.PIPE, text=True)
+    if p.returncode != 0:
+        return dict(crashed=True, code=p.returncode, stderr=p.stderr[-500:])
+    return json.loads(p.stdout.strip().splitlines()[-1])
+
+
+def probe_violations(prefix, point, r, ref_fp, viol):
+    """turn one probe result into violations; returns fingerprint"""
+    if r.get("crashed"):
+        viol.append(dict(sig="%s:%s:crash" % (prefix, point), detail="probe died with exit code %s: %s" % (r["code"], r["stderr"]), replay=dict(point=point), count=1))
+        return None
+    algos = sorted(set(m.split(" ")[0] for m in r["mismatches"]))
+    for a in algos:
+        ex = [m for m in r["mismatches"] if m.startswith(a + " ")][:3]
+        viol.append(dict(sig="%s:%s:%s:differs-from-model" % (prefix, point, a), detail="%d outputs differ from the reference model, e.g. %s" % (r["n_mismatches"], ex), replay=dict(point=point, examples=ex), count=r["n_mismatches"]))
+    algos = sorted(set(m.split(" ")[0] for m in r["panics"]))
+    for a in algos:
+        ex = [m for m in r["panics"] if m.startswith(a + " ")][:3]
+        viol.append(dict(sig="%s:%s:%s:panic" % (prefix, point, a), detail="%d calls panicked where other configurations return, e.g. %s" % (r["n_panics"], ex), replay=dict(point=point, examples=ex), count=r["n_panics"]))
+    if ref_fp is not None and r["fingerprint"] != ref_fp and not r["mismatches"] and not r["panics"]:
+        viol.append(dict(sig="%s:%s:fingerprint" % (prefix, point), detail="fingerprint %s differs from the reference configuration's %s" % (r["fingerprint"], ref_fp), replay=dict(point=point), count=1))
+    return r["fingerprint"]
+
+
+def plan_c03(tier):
+    from concurrent.futures import ThreadPoolExecutor
+    t0 = time.time()
+    selftest()
+    names = list(PROBE_CONFIGS)
+    with ThreadPoolExecutor(max_workers=4) as ex:
+        built = list(ex.map(lambda n: build_probe(n, PROBE_CONFIGS[n][0], PROBE_CONFIGS[n][1]), names))
+    log("[build] %d probe configurations %.1fs" % (len(names), time.time() - t0))
+    viol, points, total, ref_fp, cases = [], [], 0, None, 0
+    for n, (binp, err) in zip(names, built):
+        if binp is None:
+            viol.append(dict(sig="c03:%s:does-not-build" % n, detail="configuration %s does not build: %s" % (n, err[-600:]), replay=dict(point=n), count=1))
+            points.append(dict(point=n, built=False))
+            continue
+        for f in PROBE_CONFIGS[n][2]:
+            point = n if len(PROBE_CONFIGS[n][2]) == 1 else "%s/forced-%s" % (n, BACKEND_NAMES[f])
+            r = run_probe(binp, f, long=(tier == "thorough"))
+            fp = probe_violations("c03", point, r, ref_fp, viol)
+            if ref_fp is None and fp is not None:
+                ref_fp = fp
+            if not r.get("crashed"):
+                total += r["cases"]
+                cases = r["cases"]
+                if f and r["taken"][f] == 0:
+                    raise Machinery("hook H1: forced backend %d was never dispatched" % f)
+            points.append(dict(point=point, cases=r.get("cases"), fingerprint=r.get("fingerprint"), mismatches=r.get("n_mismatches"), panics=r.get("n_panics"), forced_dispatch_hits=(r.get("taken") or [None] * 6)[f] if f else None))
+    res = dict(config="lattice", evaluations=total, distinct_nontrivial=cases, exhaustive=True, violations=viol, wall_s=time.time() - t0,
+               rule="configuration lattice enumerated completely (13 points): std dispatch with CPUID and with each of SSE2/SSSE3/SSE4.1/AVX/AVX2 forced through hook H1; no_std compile-time dispatch built with -Ctarget-feature for each of the five arms; no_simd with and without std. In every point the same probe runs all 7 ChaCha types on {k0,k1} x {n0,n1} x position alphabet x length alphabet (buffered / wide / narrow segments, counter carry), BLAKE-224/256/384/512 and JH-224/256/384/512 on every length 0..=3B+2 (thorough 6B+2) and every one-hot one-block message; each output is compared with vref inside the probe and the 13 fingerprints must be equal. distinct_nontrivial = distinct (algorithm, input) cases per point.",
+               samples=points[:3] + points[-2:], extra=dict(points=points, reference_fingerprint=ref_fp),
+               assumptions=["'SSE2 backend' means the SSE2 instantiation executed on this AVX2 host (identical instructions; target_feature only adds permission)", "the no_std arms are selected by cfg!(target_feature), trusted to follow -Ctarget-feature"])
+    return finish("C03", tier, "exploration", [res], t0)
+
+
+def repo_packages():
+    p = subprocess.run(["cargo", "metadata", "--offline", "--no-deps", "--format-version", "1", "--manifest-path", os.path.join(REPO, "Cargo.toml")], stdout=subprocess.PIPE, stderr=subprocess.PIPE, text=True, env=cargo_env())
+    if p.returncode != 0:
+        raise Machinery("cargo metadata on the repository failed: " + p.stderr[-2000:])
+    return json.loads(p.stdout)["packages"]
+
+
+def subsets(xs):
+    out = [[]]
+    for x in xs:
+        out += [s + [x] for s in out]
+    return out
+
+
+def plan_c20(tier):
+    from concurrent.futures import ThreadPoolExecutor
+    t0 = time.time()
+    selftest()
+    pkgs = repo_packages()
+    viol, lattice = [], []
+
+    def check_pkg(pk):
+        feats = sorted(f for f in pk["features"] if f != "default")
+        out = []
+        tdir = os.path.join(BUILD, "c20", pk["name"])
+        for sub in sorted(subsets(feats), key=lambda s: (len(s), s)):
+            cmd = ["cargo", "check", "--offline", "-q", "--lib", "--manifest-path", pk["manifest_path"], "--no-default-features", "--target-dir", tdir]
+            if sub:
+                cmd += ["--features", ",".join(sub)]
+            p = subprocess.run(cmd, env=cargo_env(), stdout=subprocess.PIPE, stderr=subprocess.STDOUT, text=True)
+            errs = [l for l in p.stdout.splitlines() if l.startswith("error")]
+            out.append((pk["name"], sub, p.returncode == 0, (errs[0] if errs else p.stdout[-300:])))
+        return out
+
+    with ThreadPoolExecutor(max_workers=9) as ex:
+        allres = list(ex.map(check_pkg, pkgs))
+    nbuilds = 0
+    for res in allres:
+        failing = [set(s) for (_, s, ok, _) in res if not ok]
+        for (name, sub, ok, err) in res:
+            nbuilds += 1
+            lattice.append(dict(package=name, features=sub, builds=ok))
+            if ok:
+                continue
+            # report minimal failing feature sets only; supersets are explained by them
+            if any(f < set(sub) for f in failing):
+                continue
+            viol.append(dict(sig="c20:build:%s:%s" % (name, "+".join(sub) if sub else "(none)"), detail="cargo check -p %s --no-default-features --features '%s' fails: %s" % (name, ",".join(sub), err[:300]), replay=dict(package=name, features=sub), count=1 + sum(1 for f in failing if f > set(sub))))
+    log("[c20] %d feature-lattice builds %.1fs" % (nbuilds, time.time() - t0))
+    # ---- features must only select implementations: probe fingerprints ----
+    pf = ["chacha_std", "chacha_no_simd", "chacha_simd", "blake_std", "jh_std", "ppv_std", "ppv_no_simd", "ppv_simd"]
+    if tier == "thorough":
+        sets = subsets(pf)
+    else:
+        sets = [STD, [], STD + ["ppv_no_simd"], ["ppv_no_simd"], ["chacha_simd", "ppv_simd"], ["blake_std"], ["chacha_no_simd", "jh_std"], ["chacha_std", "ppv_std", "chacha_simd", "ppv_simd", "blake_std", "jh_std"]]
+    shared = {tuple(sorted(v[0])): n for n, v in PROBE_CONFIGS.items() if not v[1]}
+    jobs = []
+    for k, fs in enumerate(sets):
+        key = tuple(sorted(fs))
+        jobs.append((fs, os.path.join(BUILD, shared[key]) if key in shared else os.path.join(BUILD, "probe-misc-%d" % (k % 8))))
+    # builds in the same target dir must be sequential: group by dir
+    bydir = {}
+    for fs, d in jobs:
+        bydir.setdefault(d, []).append(fs)
+
+    def run_dir(item):
+        d, fss = item
+        out = []
+        for fs in fss:
+            binp, err = build_probe(None, fs, "", tdir=d)
+            out.append((fs, run_probe(binp) if binp else None, err))
+        return out
+
+    with ThreadPoolExecutor(max_workers=8) as ex:
+        pres = [x for chunk in ex.map(run_dir, bydir.items()) for x in chunk]
+    ref_fp, pts, total, cases = None, [], 0, 0
+    pres.sort(key=lambda x: (x[0] != STD, len(x[0]), x[0]))
+    for fs, r, err in pres:
+        point = "features[" + ",".join(fs) + "]"
+        if r is None:
+            viol.append(dict(sig="c20:probe:%s:does-not-build" % point, detail=err[-500:], replay=dict(features=fs), count=1))
+            continue
+        fp = probe_violations("c20:probe", point, r, ref_fp, viol)
+        if ref_fp is None:
+            ref_fp = fp
+        if not r.get("crashed"):
+            total += r["cases"]
+            cases = r["cases"]
+        pts.append(dict(features=fs, fingerprint=r.get("fingerprint"), cases=r.get("cases")))
+    # threefish no_unroll selects an implementation too: C09's domain on that build
+    r9 = run_engine("nounroll", ["c09", "--tier", "quick"], "C20-c09-nounroll")
+    for v in r9.get("violations", []):
+        viol.append(dict(v, sig="c20:no_unroll:" + v["sig"]))
+    res = dict(config="lattice", evaluations=nbuilds + total + r9["evaluations"], distinct_nontrivial=nbuilds + len(pts), exhaustive=True, violations=viol, wall_s=time.time() - t0,
+               rule="(1) for each of the 9 workspace packages the declared features (cargo metadata, incl. the implicit features of optional dependencies, 'default' excluded) are read and EVERY subset is built with cargo check --lib --no-default-features --features <subset> (minimal failing sets are reported); (2) the probe of C03 is built with %s of the implementation-selecting features {chacha std/no_simd/simd, blake std, jh std, ppv-lite86 std/no_simd/simd} and its fingerprint must equal the all-std fingerprint; (3) Threefish with no_unroll runs C09's domain against the model. distinct_nontrivial = lattice points built + probe points run." % ("every subset (256)" if tier == "thorough" else "8 chosen subsets"),
+               samples=lattice[:2] + lattice[-2:] + pts[:2], extra=dict(lattice_builds=nbuilds, lattice=lattice, probe_points=pts, reference_fingerprint=ref_fp, c09_no_unroll_evaluations=r9["evaluations"]),
+               assumptions=["stable toolchain and x86-64 target of this sandbox only", "supersets of a failing minimal feature set are attributed to it"])
+    return finish("C20", tier, "exploration", [res], t0)
+
+
+def multi(pid, level, sub, cfgs_quick, cfgs_thorough=None, tiers_env=None):
+    return simple(pid, level, sub, cfgs_quick, cfgs_thorough)
+
+
 PLANS = {
-    "C01": simple("C01", "exploration", "c01", ["rel"]),
+    "C01": simple("C01", "exploration", "c01", ["rel"], ["rel", "ovf"]),
     "C02": simple("C02", "model_checking", "c02", ["rel", "ovf"], ["rel", "ovf", "dev"]),
+    "C03": plan_c03,
+    "C04": simple("C04", "exploration", "c04", ["rel"], ["rel", "nosimd"]),
+    "C05": simple("C05", "exploration", "c05", ["rel"], ["rel", "nounroll"]),
+    "C06": simple("C06", "exploration", "c06", ["rel"], ["rel", "nosimd"]),
+    "C07": simple("C07", "exploration", "c07", ["rel"]),
+    "C08": simple("C08", "model_checking", "c08", ["rel"], ["rel", "ovf"]),
+    "C09": simple("C09", "exploration", "c09", ["rel", "nounroll"]),
+    "C10": simple("C10", "exploration", "c10", ["rel", "nounroll"]),
     "C11": simple("C11", "model_checking", "c11", ["rel", "ovf"], ["rel", "ovf", "dev"]),
+    "C12": simple("C12", "exploration", "c12", ["rel", "nosimd"]),
+    "C13": simple("C13", "exploration", "c13", ["rel", "nosimd"]),
+    "C14": simple("C14", "exploration", "c14", ["rel", "ovf", "nosimd"], ["rel", "ovf", "nosimd", "nosimd-ovf"]),
+    "C15": simple("C15", "model_checking", "c15", ["rel", "ovf"], ["rel", "ovf", "nosimd"]),
+    "C16": simple("C16", "exploration", "c16", ["rel", "nosimd"]),
+    "C17": simple("C17", "model_checking", "c17", ["rel", "ovf"]),
+    "C18": simple("C18", "model_checking", "c18", ["rel"]),
+    "C19": simple("C19", "exploration", "c19", ["rel", "ovf"], ["rel", "ovf", "dev"]),
+    "C20": plan_c20,
 }
 
 
@@ -257,8 +467,13 @@ def main(argv):
     try:
         if argv[0] == "setup":
             assert_wiring()
-            for c in ["rel", "ovf"]:
+            from concurrent.futures import ThreadPoolExecutor
+            for c in ["rel", "ovf", "nosimd", "nounroll"]:
                 build(c)
+            with ThreadPoolExecutor(max_workers=4) as ex:
+                for n, (b, err) in zip(PROBE_CONFIGS, ex.map(lambda n: build_probe(n, PROBE_CONFIGS[n][0], PROBE_CONFIGS[n][1]), list(PROBE_CONFIGS))):
+                    if b is None:
+                        log("[setup] probe configuration %s does not build (reported by C03/C20 as a finding)" % n)
             selftest()
             return 0
         if argv[0] == "selftest":
